@@ -69,6 +69,13 @@ class Run:
                 os.remove(disp)
             if self.prop == "C05":
                 self.broken.append(("translator", "gen_consts --dispatch", err.strip()))
+        bt = os.path.join(gen, "Mp4BoxTypes.v")
+        rc, out, err = sh([sys.executable, os.path.join(VERIF, "tools", "gen_consts.py"), "--box-types", self.repo, bt])
+        if rc != 0:
+            if os.path.exists(bt):
+                os.remove(bt)
+            if self.prop == "C05":
+                self.broken.append(("translator", "gen_consts --box-types", err.strip()))
         # the known chunk names of webpsan's two trailing-chunk loops (Props/C14k.v): C14's tie
         known = os.path.join(gen, "WebpKnown.v")
         rc, out, err = sh([sys.executable, os.path.join(VERIF, "tools", "gen_consts.py"), "--webp-known", self.repo, known])
